@@ -64,16 +64,24 @@ REPL_SPECIAL = [
 
 def lifetime_case(rng, k):
     """random activation patterns around one global pointer"""
-    L = ['TYPE IP = ^INTEGER', 'DECLARE gp : IP', 'DECLARE g : INTEGER', 'g <- 1']
+    L = ['TYPE IP = ^INTEGER', 'DECLARE gp : IP', 'DECLARE gq : IP', 'DECLARE g : INTEGER', 'g <- 1', 'gq <- ^g']
+    # pointer COPIES in every liveness state: into a pointer that holds a live local of the running activation, from a
+    # pointer left behind by a returned one (whose storage the running activation may have been given), and back
+    L += ['PROCEDURE sibling(n : INTEGER)', '  DECLARE y : INTEGER', '  y <- n', '  gq <- ^y', '  OUTPUT "sib ", gq^', '  gq <- gp', '  OUTPUT "sib copy ", gq^',
+          '  gq^ <- gq^ + 100', '  OUTPUT "y ", y', 'ENDPROCEDURE',
+          'PROCEDURE sibling2(n : INTEGER)', '  DECLARE y : INTEGER', '  y <- n', '  gq <- ^y', '  gp <- gq', '  OUTPUT "sib2 ", gp^', 'ENDPROCEDURE',
+          'PROCEDURE viaparam(BYVAL p : IP)', '  DECLARE z : INTEGER', '  z <- 77', '  OUTPUT "via ", p^', 'ENDPROCEDURE',
+          'FUNCTION retptr(n : INTEGER) RETURNS IP', '  DECLARE w : INTEGER', '  DECLARE lp : IP', '  w <- n', '  lp <- ^w', '  IF n > 5 THEN', '    lp <- gp', '  ENDIF', '  RETURN lp', 'ENDFUNCTION']
     L += ['PROCEDURE setlocal(n : INTEGER)', '  DECLARE loc : INTEGER', '  loc <- n', '  gp <- ^loc', '  OUTPUT "set ", gp^', 'ENDPROCEDURE',
           'PROCEDURE setglobal', '  gp <- ^g', 'ENDPROCEDURE',
           'PROCEDURE setparam(BYVAL v : INTEGER)', '  gp <- ^v', '  OUTPUT "param ", gp^', 'ENDPROCEDURE',
           'PROCEDURE setref(BYREF v : INTEGER)', '  gp <- ^v', 'ENDPROCEDURE',
           'PROCEDURE useit(pad : INTEGER)', '  DECLARE filler : INTEGER', '  filler <- pad', '  OUTPUT "use ", gp^', '  gp^ <- gp^ + 1', 'ENDPROCEDURE',
           'PROCEDURE nested(d : INTEGER)', '  DECLARE mine : INTEGER', '  mine <- d * 7', '  IF d = 0 THEN', '    CALL useit(1)', '  ELSE', '    CALL nested(d - 1)', '  ENDIF', 'ENDPROCEDURE']
-    for _ in range(rng.randint(2, 5)):
+    for _ in range(rng.randint(2, 7)):
         L.append(rng.choice(['CALL setlocal(%d)' % rng.randint(1, 9), 'CALL setglobal', 'CALL setparam(%d)' % rng.randint(1, 9), 'CALL setref(g)', 'CALL useit(3)', 'CALL nested(%d)' % rng.randint(0, 3),
-                             'OUTPUT gp^', 'gp^ <- 50', 'OUTPUT g']))
+                             'OUTPUT gp^', 'gp^ <- 50', 'OUTPUT g', 'CALL sibling(%d)' % rng.randint(1, 9), 'CALL sibling2(%d)' % rng.randint(1, 9), 'CALL viaparam(gp)', 'CALL viaparam(gq)',
+                             'gq <- gp', 'gp <- gq', 'OUTPUT gq^', 'gq^ <- 60', 'gq <- retptr(%d)' % rng.randint(1, 9), 'gp <- retptr(%d)' % rng.randint(1, 9)]))
     return Case(gen.join(L), meta=dict(gen='lifetime', sample=k < 1))
 
 def generate(tier, rng):
@@ -83,6 +91,8 @@ def generate(tier, rng):
         cases.append(alias_case(rng, k))
     for k in range(120 if tier == 'quick' else 1500):
         cases.append(lifetime_case(rng, k))
+    for _ in range(25 if tier == 'quick' else 500):      # cross-feature programs (gen.rich_program): every data kind, call mode and file kind mixed
+        cases.append(Case(gen.rich_program(rng), limits=dict(steps=30000), stdin=b'typed\n', meta=dict(gen='rich', sample=False)))
     return cases
 
 def intrinsic(case, io, ia):
